@@ -100,6 +100,14 @@ type SrcSpec struct {
 	Seed  uint64 `json:"seed,omitempty"`
 	Term  string `json:"term,omitempty"`  // eof | eofdata | err | errdata | gate
 	After int    `json:"after,omitempty"` // bytes delivered before err/gate (only with err/errdata/gate)
+	Wrap  bool   `json:"wrap,omitempty"`  // the injected error wraps io.EOF (errors.Is(err, io.EOF) holds)
+}
+
+func (s *schedSource) srcErr() error {
+	if s.wrap {
+		return errSourceWrapsEOF
+	}
+	return errSource
 }
 
 func (s SrcSpec) String() string {
@@ -107,6 +115,10 @@ func (s SrcSpec) String() string {
 }
 
 var errSource = errors.New("verif: injected source failure")
+
+// a source error that merely WRAPS io.EOF (errors.Is(err, io.EOF) holds, err == io.EOF does not): by
+// the io.Reader contract it is an error like any other and must be reported as itself
+var errSourceWrapsEOF = fmt.Errorf("verif: injected source failure (link closed in mid-message): %w", io.EOF)
 var errGate = errors.New("verif: source asked for bytes beyond the gate")
 
 type schedSource struct {
@@ -121,6 +133,7 @@ type schedSource struct {
 	gateAt    int  // value of *delivered when the source was first asked beyond the gate, -1 = never
 	termSeen  bool
 	log       []int // size of every delivery
+	wrap     bool
 }
 
 func (s *schedSource) next(max int) int {
@@ -173,7 +186,7 @@ func (s *schedSource) Read(p []byte) (int, error) {
 				return n, io.EOF
 			case "errdata":
 				s.termSeen = true
-				return n, errSource
+				return n, s.srcErr()
 			}
 		}
 		return n, nil
@@ -181,7 +194,7 @@ func (s *schedSource) Read(p []byte) (int, error) {
 	s.termSeen = true
 	switch s.term {
 	case "err", "errdata":
-		return 0, errSource
+		return 0, s.srcErr()
 	case "gate":
 		if s.gateAt < 0 {
 			s.gateAt = *s.delivered
@@ -305,7 +318,7 @@ func mkSource(sp SrcSpec, data []byte, delivered *int) (src io.Reader, ss *sched
 		r := strings.NewReader(string(data))
 		return r, nil, func() ([]byte, bool) { b, _ := io.ReadAll(r); return b, true }
 	}
-	ss = &schedSource{data: data, limit: limit, chunk: sp.Chunk, r: NewRng(sp.Seed ^ 0x50), term: sp.Term, delivered: delivered, gateAt: -1}
+	ss = &schedSource{data: data, limit: limit, chunk: sp.Chunk, r: NewRng(sp.Seed ^ 0x50), term: sp.Term, delivered: delivered, gateAt: -1, wrap: sp.Wrap}
 	rest := func() []byte { return ss.data[ss.pos:] }
 	switch sp.Kind {
 	case "bufio":
@@ -436,7 +449,7 @@ func RunR(api string, std bool, data []byte, dict []byte, sp SrcSpec, ctor strin
 		}
 		if err != nil {
 			o.CtorErr = errKind(err)
-			o.ErrIsSrc = err == errSource
+			o.ErrIsSrc = err == errSource || err == errSourceWrapsEOF
 			if ss != nil {
 				o.SrcReads = ss.reads
 				o.GateAt = ss.gateAt
@@ -482,7 +495,7 @@ func RunR(api string, std bool, data []byte, dict []byte, sp SrcSpec, ctor strin
 		}
 		o.Bytes = out.Bytes()
 		o.Err = errKind(ferr)
-		o.ErrIsSrc = ferr == errSource
+		o.ErrIsSrc = ferr == errSource || ferr == errSourceWrapsEOF
 		if ferr == errGate {
 			o.Err = "GATE"
 		}
